@@ -30,6 +30,9 @@ func init() {
 			{ID: "C09.R11", Text: "the partition keeps following the membership: the vBucket discovery is closed only by the client's close path, never by the stream (a rebalance closes the stream, not the discovery)", Run: discoveryClosedOnlyByClient},
 			{ID: "C09.R12", Text: "the partition is computed from the latest numbering: announcements are applied in the order they were made: every Publish on the membership topic is a plain synchronous call, never go/defer (same rule as C10.R29)", Run: publishSynchronous},
 			{ID: "C09.R13", Text: "a member the group no longer lists stops instead of keeping its old chunk: the numbering step is fatal when the live list does not contain this member (same rule as C10.R25)", Run: cbmNumbering},
+			{ID: "C09.R14", Text: "members that the leader numbers never share a number: every round re-sends (i+2, n+1) to every registered follower at its join-ordered position (same rule as C10.R20)", Run: leaderMonitorRound},
+			{ID: "C09.R15", Text: "a follower that registered before the new leader's callback ran keeps its place: role callbacks touch the registry only through their own steps (same rule as C10.R22)", Run: leaderRoles},
+			{ID: "C09.R16", Text: "a dead follower leaves the group (its chunk is re-assigned): the heart-beat removes exactly the followers whose ping failed, and Retry reports nil ⇔ some attempt succeeded (same rule as C10.R7)", Run: c10r7},
 			{ID: "C09.R3", Text: "purity: no globals, goroutines, map ranges; ChunkSlice calls only builtins; Get calls only GetInfo, ChunkSlice and the logger", Run: c09r3},
 		},
 	})
